@@ -286,6 +286,17 @@ func H_C15_json_bytes() {
 		}
 	})
 	vAssert(!panicked, "json bytes: decoders never panic on arbitrary input")
+	if form == 0 && len(in) > 0 {
+		blank := true
+		for _, c := range in {
+			if c != ' ' {
+				blank = false
+			}
+		}
+		if blank {
+			vAssert(err != nil, "json bytes: input of white space only is rejected as encoding/json rejects it (only the empty input is the empty Map)")
+		}
+	}
 	if err == nil && len(in) > 0 && form == 0 {
 		vAssert(m != nil, "json bytes: success comes with a Map")
 	}
